@@ -670,6 +670,12 @@ def refused_calls(obs, sched, case, it, pos):
                   lambda: archive.add(np.zeros((2, D)), np.array([0.0, np.nan]), np.zeros((2, 2)))))
     calls.append(("archive.add(objective of another length)",
                   lambda: archive.add(np.zeros((2, D)), np.zeros(3), np.zeros((2, 2)))))
+    # a CQD score that must be refused (penalties of the wrong rank) while it is asked to DRAW its target points from
+    # the archive's own generator: the refusal must not have consumed that stream (sample_elites uses it later)
+    calls.append(("archive.cqd_score(drawn target points, penalties of rank 2)",
+                  lambda: archive.cqd_score(2, 3, np.zeros((2, 2)), 0.0, 1.0, dist_max=1.0)))
+    calls.append(("archive.cqd_score(target points of the wrong shape)",
+                  lambda: archive.cqd_score(2, np.zeros((3, 2)), 3, 0.0, 1.0, dist_max=1.0)))
     # ---- the emitters, called directly
     early = []
     for k, (em, spec) in enumerate(zip(ems, case["emitters"])):
